@@ -29,11 +29,20 @@ import random
 # one BLAS/OpenMP thread per forked worker (16 workers on 16 cores); must precede the first numpy import
 for _v in ("OMP_NUM_THREADS", "OPENBLAS_NUM_THREADS", "MKL_NUM_THREADS"):
     os.environ.setdefault(_v, "1")
+os.environ.setdefault("TQDM_DISABLE", "1")          # the ensemble wrappers cannot switch their progress bars off
 
 from ..core import Ctx, Report, pmap
-from ..fitkit import (CAP, LAWFUL, SHIPPED, Probe, RecordingLoss, RecordingResidual, build, build_joint, content_of,
-                      evaluate_at, event, fr, fvec, norm_joint, norm_scenario, seq, term_value)
+from ..fitkit import (CAP, LAWFUL, SHIPPED, Probe, RecordingLoss, RecordingResidual, build, build_ensemble, build_joint, content_of,
+                      evaluate_at, event, fr, fvec, norm_ensemble, norm_joint, norm_scenario, seq, term_value)
 from ..tlc import MachineryError
+
+WORKERS = 8          # the machine is shared: TLC workers and replay processes are capped
+
+
+def _tlc(ctx, *a, **k):
+    k.setdefault("workers", WORKERS)
+    return ctx.tlc(*a, **k)
+
 
 RULE = ("value case = (grid pair, shipped loss) with a defined value; residual case = (scenario, loss, scaling) with a "
         "defined, non-fragile expectation, non-trivial = candidate differs from the truth or the data are displaced; "
@@ -54,7 +63,7 @@ def close(a: float, b: float, rel: float, abs_: float = 0.0) -> bool:
 def mc(ctx: Ctx, rep: Report) -> None:
     lawful = ["Losses_lawful2.cfg"] + ([] if ctx.quick else ["Losses_lawful.cfg"])
     for cfg in lawful:
-        res = ctx.tlc("Losses.tla", cfg)
+        res = _tlc(ctx, "Losses.tla", cfg)
         rep.add_tlc(res, f"laws 1+2 hold for the five lawful shipped losses in both argument orientations, law 3 data-first as wired ({cfg})")
         if res.payloads:
             raise MachineryError("CexEmit printed a counterexample although the laws were reported to hold")
@@ -68,19 +77,19 @@ def mc(ctx: Ctx, rep: Report) -> None:
         ("Losses_mape_law3pd.cfg", "Law3Swapped", "prediction-first, mean_absolute_percentage scores a prediction c times too large "
                                                    "better than one c times too small: the laws fix the residual's argument order (data first)"),
     ]:
-        res = ctx.tlc("Losses.tla", cfg, expect_violation=True, workers=4)
+        res = _tlc(ctx, "Losses.tla", cfg, expect_violation=True, workers=4)
         if res.violated != inv:
             raise MachineryError(f"{cfg}: TLC was expected to violate {inv} ({what}) but reported {res.violated}: "
                                  "the specification has lost its teeth")
         rep.add_tlc(res, f"expected counterexample: {what}")
         rep.notes.setdefault("tlc_counterexamples", []).append(what)
-    res = ctx.tlc("Losses.tla", "Losses_symmetric.cfg", workers=8)
+    res = _tlc(ctx, "Losses.tla", "Losses_symmetric.cfg", workers=8)
     rep.add_tlc(res, "mean_squared, rmse, mae, mean_squared_logarithmic, cosine_similarity do not depend on the argument order")
-    res = ctx.tlc("Losses.tla", "Losses_sym_law3.cfg", workers=4)
+    res = _tlc(ctx, "Losses.tla", "Losses_sym_law3.cfg", workers=4)
     rep.add_tlc(res, "law 3 holds in either argument order for the symmetric lawful losses (only the percentage loss decides the order)")
-    res = ctx.tlc("Losses.tla", "Losses_reference.cfg", workers=4)
+    res = _tlc(ctx, "Losses.tla", "Losses_reference.cfg", workers=4)
     rep.add_tlc(res, "a cosine DISTANCE satisfies both laws (the property is satisfiable for an angle-based loss)")
-    res = ctx.tlc("Fit.tla", "Fit_contract.cfg", coverage=True, workers=8)
+    res = _tlc(ctx, "Fit.tla", "Fit_contract.cfg", coverage=True, workers=8)
     rep.add_tlc(res, "Fit machine, contract instance: honest report, never worse than start, input spared, residual functional")
     rep.require_coverage(res, ["Eval", "Report"])
     for cfg, inv, what in [
@@ -88,7 +97,7 @@ def mc(ctx: Ctx, rep: Report) -> None:
         ("Fit_mock.cfg", "RepHonest", "reporting a loss that was never computed (mock_minimizer-shaped)"),
         ("Fit_nocopy.cfg", "SparedAnyway", "without the copy the caller's model holds the last candidate"),
     ]:
-        res = ctx.tlc("Fit.tla", cfg, expect_violation=True, workers=4)
+        res = _tlc(ctx, "Fit.tla", cfg, expect_violation=True, workers=4)
         if res.violated != inv:
             raise MachineryError(f"{cfg}: TLC was expected to violate {inv} ({what}) but reported {res.violated}")
         rep.add_tlc(res, f"expected counterexample: {what}")
@@ -136,14 +145,14 @@ def loss_values(ctx: Ctx, rep: Report) -> None:
     cfgs = ["Losses_gen.cfg"] + ([] if ctx.quick else ["Losses_gen3.cfg"])
     cases = []
     for cfg in cfgs:
-        res = ctx.tlc("Losses.tla", cfg)
+        res = _tlc(ctx, "Losses.tla", cfg)
         rep.add_tlc(res, f"gen: grid pairs with the exact value of every shipped loss ({cfg})")
         cases += res.payloads
     if len(cases) < 2000:
         raise MachineryError(f"only {len(cases)} loss value cases emitted")
     for j, c in enumerate(cases):
         c["frames"] = (not ctx.quick) or j % 4 == 0       # quick: the one-column-frame form for every fourth pair
-    results = pmap(_value_case, cases, chunk=128)
+    results = pmap(_value_case, cases, procs=WORKERS, chunk=128)
     undefined = 0
     for p, rs in zip(cases, results):
         rep.replayed += 1
@@ -192,7 +201,7 @@ def classify_law(c: dict) -> str:
 
 
 def law_counterexamples(ctx: Ctx, rep: Report) -> None:
-    res = ctx.tlc("Losses.tla", "Losses_cex.cfg")
+    res = _tlc(ctx, "Losses.tla", "Losses_cex.cfg")
     rep.add_tlc(res, "gen: every counterexample to law 1 / law 2 for the shipped `mean` and `cosine_similarity` in the grid")
     cexs = res.payloads
     if not cexs:
@@ -200,7 +209,7 @@ def law_counterexamples(ctx: Ctx, rep: Report) -> None:
     rnd = random.Random(ctx.seed)
     if ctx.quick and len(cexs) > 500:
         cexs = rnd.sample(cexs, 500)
-    outs = pmap(_law_case, cexs, chunk=128)
+    outs = pmap(_law_case, cexs, procs=WORKERS, chunk=128)
     hist: dict = {}
     for c, o in zip(cexs, outs):
         rep.replayed += 1
@@ -336,7 +345,7 @@ def nontrivial(scn: dict) -> bool:
 
 def scenarios(ctx: Ctx, rep: Report) -> list[dict]:
     cfg = "FitModels_quick.cfg" if ctx.quick else "FitModels_full.cfg"
-    res = ctx.tlc("FitModels.tla", cfg, coverage=False)
+    res = _tlc(ctx, "FitModels.tla", cfg, coverage=False)
     rep.add_tlc(res, f"gen: identifiable linear models, closed-form predictions, expected residuals for every loss ({cfg}); "
                      "ZeroAtTruth and SymmetricAgree checked on every one-group scenario")
     scns = [norm_scenario(p) for p in res.payloads]
@@ -360,7 +369,7 @@ def residuals(ctx: Ctx, rep: Report, scns: list[dict]) -> None:
         share = cap // len(by)
         for k in sorted(by):
             pick += by[k] if len(by[k]) <= share else rnd.sample(by[k], share)
-    results = pmap(_residual_case, pick, chunk=8)
+    results = pmap(_residual_case, pick, procs=WORKERS, chunk=8)
     hist = {"ok": 0, "undefined": 0, "fragile": 0, "bad": 0}
     orient = {"sym": 0, "asym": 0}
     for scn, rs in zip(pick, results):
@@ -437,15 +446,15 @@ def slim_joint(js: dict) -> dict:
 
 
 def joint(ctx: Ctx, rep: Report) -> None:
-    res = ctx.tlc("FitJoint.tla", "FitJoint_leaky.cfg", expect_violation=True, workers=4)
+    res = _tlc(ctx, "FitJoint.tla", "FitJoint_leaky.cfg", expect_violation=True, workers=4)
     if res.violated != "OrderFree":
         raise MachineryError(f"FitJoint_leaky.cfg: the loop-carried default should violate OrderFree, TLC reported {res.violated}")
     rep.add_tlc(res, "expected counterexample: an override that stays in force for the following experiments makes the "
                      "settings depend on the order of the experiments")
-    res = ctx.tlc("FitJoint.tla", "FitJoint_three.cfg")
+    res = _tlc(ctx, "FitJoint.tla", "FitJoint_three.cfg")
     rep.add_tlc(res, "joint fits, three experiments, all permutations: the settings of an experiment are its own override or "
                      "the shared default, wherever it stands (OrderFree); LeakMatters")
-    res = ctx.tlc("FitJoint.tla", "FitJoint_quick.cfg" if ctx.quick else "FitJoint_full.cfg")
+    res = _tlc(ctx, "FitJoint.tla", "FitJoint_quick.cfg" if ctx.quick else "FitJoint_full.cfg")
     rep.add_tlc(res, "gen: joint scenarios (two experiments, every combination of overrides / defaults / order) with the exact "
                      "residual term of every experiment")
     scns = [norm_joint(p) for p in res.payloads]
@@ -463,7 +472,7 @@ def joint(ctx: Ctx, rep: Report) -> None:
     from concurrent.futures import ProcessPoolExecutor
 
     hist = {"ok": 0, "undefined": 0, "bad": 0}
-    with ProcessPoolExecutor(max_workers=6, mp_context=mp.get_context("fork")) as ex:   # joint fits start process pools
+    with ProcessPoolExecutor(max_workers=4, mp_context=mp.get_context("fork")) as ex:   # joint fits start process pools
         for js, rs in zip(pick, ex.map(_joint_case, pick)):
             rep.replayed += 1
             for r in rs:
@@ -479,6 +488,85 @@ def joint(ctx: Ctx, rep: Report) -> None:
         raise MachineryError(f"too few joint cases decided: {hist}")
     s = next(x for x in pick if x["leakshape"])
     rep.sample({"kind": "joint", "routine": s["kind"], "experiments": s["exps"], "defaults": s["dflt"], "effective": s["eff"]})
+
+
+# ======================================================================================================
+# 4c. ensemble / carousel fits: a wrapper forwards every option (FitEnsemble.tla)
+# ======================================================================================================
+def _ensemble_case(es: dict) -> list[dict]:
+    import multiprocessing
+
+    import numpy as np
+    from mxlpy import fit
+
+    multiprocessing.cpu_count = lambda: 2          # the wrappers size their worker pools by it (harness-side only)
+    out = []
+    exps = [term_value(t) for t in es["exp"]]
+    if any(v is None for v in exps):
+        return [{"entry": "*", "status": "undefined"}]
+    want = [es["twice"] * v for v in exps]
+    for as_carousel in (False, True):
+        routine, first, kwargs, p0 = build_ensemble(es, as_carousel)
+        models = first.variants if as_carousel else first
+        before = [content_of(m) for m in models]
+        base = {"entry": routine}
+        with np.errstate(all="ignore"):
+            try:
+                res = getattr(fit, routine)(first, p0=dict(p0), minimizer=Probe([p0]), **kwargs)
+                obs = [float(f.loss) for f in res.fits]
+            except Exception as ex:  # noqa: BLE001
+                out.append({**base, "status": "bad", "expected": want, "observed": f"{type(ex).__name__}: {ex}"[:300]})
+                continue
+        tols = [es["twice"] * _tolerance({"data": es["data"], "pred": p}, es["opt"]["loss"], True) for p in es["pred"]]
+        if len(obs) == len(want) and all(close(o, w, 1e-6, t) for o, w, t in zip(obs, want, tols)):
+            out.append({**base, "status": "ok"})
+        else:
+            out.append({**base, "status": "bad", "expected": want, "observed": obs, "tolerance": tols})
+        after = [content_of(m, invalidate=True) for m in models]
+        if before != after:
+            out.append({**base, "status": "bad", "what": "a member model changed", "expected": before, "observed": after})
+    return out
+
+
+def ensemble(ctx: Ctx, rep: Report) -> None:
+    for d in ("loss", "y0", "resid"):
+        res = _tlc(ctx, "FitEnsemble.tla", f"FitEnsemble_drop_{d}.cfg", expect_violation=True, workers=4)
+        if res.violated != "Forwards":
+            raise MachineryError(f"FitEnsemble_drop_{d}.cfg: a wrapper that drops `{d}` should violate Forwards, TLC reported {res.violated}")
+        rep.add_tlc(res, f"expected counterexample: an ensemble wrapper that does not pass `{d}` on to the member fits")
+    res = _tlc(ctx, "FitEnsemble.tla", "FitEnsemble_contract.cfg", workers=8)
+    rep.add_tlc(res, "ensemble / carousel fits: every member is evaluated with the options the caller chose (Forwards); gen: "
+                     "members x loss x y0 x residual function x model initial value with each member's exact residual")
+    scns = [norm_ensemble(p) for p in res.payloads]
+    if len(scns) < 200:
+        raise MachineryError(f"only {len(scns)} ensemble scenarios emitted")
+    rnd = random.Random(ctx.seed + 4)
+    by: dict = {}
+    for s in scns:
+        by.setdefault((s["kind"], s["opt"]["loss"]), []).append(s)        # every kind with every loss
+    per = 3 if ctx.quick else 12
+    pick = []
+    for k in sorted(by):
+        pick += by[k] if len(by[k]) <= per else rnd.sample(by[k], per)
+    import multiprocessing as mp
+    from concurrent.futures import ProcessPoolExecutor
+
+    hist = {"ok": 0, "undefined": 0, "bad": 0}
+    with ProcessPoolExecutor(max_workers=4, mp_context=mp.get_context("fork")) as ex:
+        for es, rs in zip(pick, ex.map(_ensemble_case, pick)):
+            rep.replayed += 1
+            for r in rs:
+                rep.evaluations += 1
+                hist[r["status"]] += 1
+                if r["status"] == "ok":
+                    rep.distinct.add(("ensemble", json.dumps([es["kind"], es["mem"], es["opt"]], sort_keys=True), r["entry"]))
+                elif r["status"] == "bad":
+                    scn = {"kind": "ensemble", "shape": es["kind"], **{k: es[k] for k in
+                           ("mem", "opt", "jt", "jc", "A", "prot", "times", "x2", "data", "pred", "twice", "exp")}, "entry": r["entry"]}
+                    rep.mismatch(scn, {k: v for k, v in r.items() if k != "status"}, None)
+    rep.notes["ensemble_fit_cases"] = {**hist, "scenarios": len(pick), "entry_points_per_scenario": 2}
+    if hist["ok"] + hist["bad"] < 30:
+        raise MachineryError(f"too few ensemble cases decided: {hist}")
 
 
 # ======================================================================================================
@@ -562,7 +650,7 @@ def validate_traces(ctx: Ctx, rep: Report, traces: list[dict], tag: str, what: s
     for lo in range(0, len(traces), 400):
         tf = ctx.work / f"traces_{tag}_{lo}.json"
         tf.write_text(json.dumps(traces[lo:lo + 400]))
-        res = ctx.tlc("FitTrace.tla", "FitTrace.cfg", tag=f"trace_{tag}_{lo}", env={"TRACE_FILE": str(tf)}, workers=1)
+        res = _tlc(ctx, "FitTrace.tla", "FitTrace.cfg", tag=f"trace_{tag}_{lo}", env={"TRACE_FILE": str(tf)}, workers=1)
         rep.add_tlc(res, what)
         for p in res.payloads:
             v = verdicts.setdefault(p["id"], {"l": 0, "accept": False, "byeval": False})
@@ -611,7 +699,7 @@ def corruptions(trace: dict) -> list[tuple[str, dict]]:
 
 def traces(ctx: Ctx, rep: Report, scns: list[dict]) -> None:
     cases = fit_cases(ctx, scns)
-    trs = pmap(run_fit, cases, chunk=2)
+    trs = pmap(run_fit, cases, procs=WORKERS, chunk=2)
     verdicts = validate_traces(ctx, rep, trs, "fits", "trace validation: recorded fits (LocalScipyMinimizer) against FitCore clauses")
     failed = sum(1 for t in trs if any(e["k"] == "fail" for e in t["ev"]))
     evals = sum(1 for t in trs for e in t["ev"] if e["k"] == "eval")
@@ -698,6 +786,8 @@ def run(ctx: Ctx) -> int:
     lap("residual replay")
     joint(ctx, rep)
     lap("joint fits")
+    ensemble(ctx, rep)
+    lap("ensemble / carousel fits")
     traces(ctx, rep, scns)
     lap("recorded fits + trace validation")
     rep.notes["stage_wall_s"] = stages
@@ -722,6 +812,9 @@ def replay(ctx: Ctx, doc: dict) -> int:
             for s, e in by.items():
                 full["exp"][n][s] = e
         rs = _residual_case(full)
+        bad = [r for r in rs if r["status"] == "bad"]
+    elif kind == "ensemble":
+        rs = _ensemble_case({**scn, "kind": scn["shape"]})
         bad = [r for r in rs if r["status"] == "bad"]
     elif kind == "joint":
         js = {**scn, "kind": scn["shape"]}
